@@ -74,10 +74,11 @@ type solverSpec struct {
 var solvers = []solverSpec{
 	{"z3new", func(f string, s int) []string { return []string{"z3-new", fmt.Sprintf("-T:%d", s), f} }},
 	{"cvc5", func(f string, s int) []string { return []string{"cvc5", fmt.Sprintf("--tlimit=%d", s*1000), f} }},
-	// same z3 5.1.0 with the alternative arithmetic solver: decides Real-valued array comparisons on which the default loops
-	{"z3new-a2", func(f string, s int) []string { return []string{"z3-new", fmt.Sprintf("-T:%d", s), "smt.arith.solver=2", f} }},
 }
 
+// z3 5.1.0 with smt.arith.solver=2 was tried as a third member and REMOVED: it answered `unsat` on a false
+// obligation (unconstrained heaps, goal plainly not implied; default z3 5.1.0 and cvc5: unknown; the answer
+// flipped when assertions were named) — the same instability signature as z3 4.8.12 below.
 // z3 4.8.12 (/usr/bin/z3) is NOT part of the deciding portfolio: on the vacuity query of
 // fiber.(*DefaultCtx).Host it answered `unsat` where z3 5.1.0 and cvc5 answer `unknown`, and the
 // answer flipped when any unrelated prelude axiom (e.g. the boxS axiom, which has no ground
